@@ -60,8 +60,11 @@ fn check_records(c: &SeqCase, obs: &mut Obs) -> Verdict {
 
 fn check_u32(c: &SeqCase, obs: &mut Obs) -> Verdict {
     let alg = c.alg % 2; // 0 Myers, 1 Patience
-    let oc: Vec<Cnt> = c.old.iter().map(|x| Cnt(*x)).collect();
-    let nc: Vec<Cnt> = c.new.iter().map(|x| Cnt(*x)).collect();
+    // mode 7: every value shifted left by 16 bits (an injective relabelling whose low bits are constant:
+    // the work may not depend on the values)
+    let shift = if c.mode == 7 && c.old.iter().chain(c.new.iter()).all(|x| *x < 65_536) { 16 } else { 0 };
+    let oc: Vec<Cnt> = c.old.iter().map(|x| Cnt(*x << shift)).collect();
+    let nc: Vec<Cnt> = c.new.iter().map(|x| Cnt(*x << shift)).collect();
     let (n, m) = (oc.len() as u64, nc.len() as u64);
     // reference D for Myers is the shortest script (it is what Myers reports, C03); to stay
     // independent of the run under test for the abort limit we use the trivial upper bound N+M
@@ -161,6 +164,7 @@ fn finish_u32(c: &SeqCase, alg: u8, r: Result<Vec<Ev>, String>, cmp: u64, n: u64
     obs.nontrivial = n + m >= 200 && dd <= (n + m) / 20;
     obs.class(alg_name(alg));
     obs.class_if(windows, "windows of larger buffers (non-zero range starts)");
+    obs.class_if(c.mode == 7, "values shifted left by 16 bits (constant low bits)");
     obs.class_if(dd == 0, "identical inputs");
     obs.class_if(n + m >= 200 && dd <= (n + m) / 20, "near-identical, N+M >= 200");
     obs.class_if(dd >= (n + m) / 2 && n + m > 20, "mostly unrelated");
@@ -269,6 +273,8 @@ fn strat(tier: Tier) -> BoxedStrategy<SeqCase> {
                 c.mode = 5;
             } else if m == 1 || m == 2 {
                 c.mode = 6;
+            } else if m == 3 {
+                c.mode = 7;
             }
             c
         })
@@ -374,6 +380,19 @@ fn enum_large(tier: Tier, f: &mut dyn FnMut(SeqCase) -> bool) {
             return;
         }
     }
+    // distinct items that are multiples of 2^16 (constant low bits), one replaced
+    for &n in &[8000u32, 20_000] {
+        for alg in 0..2u8 {
+            let a: Vec<u32> = (1..=n).collect();
+            let mut b = a.clone();
+            b[(n / 2) as usize] = 65_000;
+            let mut c = SeqCase::full(alg, a, b);
+            c.mode = 7;
+            if !f(c) {
+                return;
+            }
+        }
+    }
     // unrelated inputs of distinct items (D = N+M in the thousands): the claim is linear in D as well
     for &n in &[1500u32, 3000, 5000] {
         for alg in 0..2u8 {
@@ -401,7 +420,7 @@ impl Prop for C19 {
     type Case = SeqCase;
     const ID: &'static str = "C19";
     fn rule() -> String {
-        "cases = (Myers|Patience, old, new) over an element type whose PartialEq counts calls; a stage of fixed inputs of 20 000-150 000 near-identical items and of 2^k-1 vs 2^k+1 distinct items (k = 8..13); a fifth of the random cases (and a fixed 8000-item input) are windows of larger buffers diffed through algorithms::diff with non-zero range starts; fixed unrelated inputs of 1500, 3000 and 5000 distinct items per side (D in the thousands); a third of the random cases are measured on buffers that held other content in an earlier diff and were edited in place; 1 random case in 10 uses 50-byte record items sharing a 40-byte head (so hashing/equality of long keys is exercised); families: near-identical (0-6 edits incl. block moves) up to 400 (quick) / 3000 (thorough) items over alphabets {2,4,26,10^3,10^5}, periodic with shift, reversed, truncated, unrelated, the shared small mixture, sequences in which every value occurs 1-3 times a few positions apart (interleaved copies; a few items cut off the front and off the end, so that the locally unique item sits at an end; half of them with a changed first item), a block followed by the same values rearranged (second occurrences far away), and 1200-3200 (thorough: 9000-24000) items with 20-200 (400) scattered single-item edits on periodic or random content. Oracle: comparisons <= c*(N+M+1)*(D+1) with D = size of the reported script (Myers: the smaller of that and the shortest script by an independent LCS reference when N*M <= 10^6), c = 4 (Myers) / 6 (Patience); the counter aborts the run at 64x the largest possible bound so a quadratic or non-terminating change ends as a measured violation. The maximum measured ratio is reported under metrics_max. Non-trivial = N+M >= 200 and D <= (N+M)/20 (the near-linear claim); distinct = distinct serialized case.".into()
+        "cases = (Myers|Patience, old, new) over an element type whose PartialEq counts calls; a stage of fixed inputs of 20 000-150 000 near-identical items and of 2^k-1 vs 2^k+1 distinct items (k = 8..13); a tenth of the random cases (and fixed inputs of 8000 / 20 000 distinct items) use values that are multiples of 2^16; a fifth of the random cases (and a fixed 8000-item input) are windows of larger buffers diffed through algorithms::diff with non-zero range starts; fixed unrelated inputs of 1500, 3000 and 5000 distinct items per side (D in the thousands); a third of the random cases are measured on buffers that held other content in an earlier diff and were edited in place; 1 random case in 10 uses 50-byte record items sharing a 40-byte head (so hashing/equality of long keys is exercised); families: near-identical (0-6 edits incl. block moves) up to 400 (quick) / 3000 (thorough) items over alphabets {2,4,26,10^3,10^5}, periodic with shift, reversed, truncated, unrelated, the shared small mixture, sequences in which every value occurs 1-3 times a few positions apart (interleaved copies; a few items cut off the front and off the end, so that the locally unique item sits at an end; half of them with a changed first item), a block followed by the same values rearranged (second occurrences far away), and 1200-3200 (thorough: 9000-24000) items with 20-200 (400) scattered single-item edits on periodic or random content. Oracle: comparisons <= c*(N+M+1)*(D+1) with D = size of the reported script (Myers: the smaller of that and the shortest script by an independent LCS reference when N*M <= 10^6), c = 4 (Myers) / 6 (Patience); the counter aborts the run at 64x the largest possible bound so a quadratic or non-terminating change ends as a measured violation. The maximum measured ratio is reported under metrics_max. Non-trivial = N+M >= 200 and D <= (N+M)/20 (the near-linear claim); distinct = distinct serialized case.".into()
     }
     fn assumptions() -> Vec<String> {
         vec!["the constants are calibrated (measured maxima about 0.7 Myers / 1.6 Patience), not derived: the check decides 'within c x of the documented O((N+M)D)'".into()]
